@@ -1003,3 +1003,69 @@ class CFG:
             seen.add(x)
             st.extend(self.succ[x])
         return False
+
+
+# ---------------------------------------------------------------------------------------------
+def bool_norm(n):
+    """(atom expression node, polarity) for E, !E, E != 0, E == 0, (bool)E; None for compound conditions"""
+    n = strip_all(n)
+    pol = True
+    while True:
+        n = strip_all(n)
+        if n['k'] == 'Un' and n.get('op') == '!':
+            pol = not pol
+            n = n['e']
+            continue
+        if n['k'] == 'Bin' and n['op'] in ('!=', '==') and val(n['r']) == 0:
+            if n['op'] == '==':
+                pol = not pol
+            n = n['l']
+            continue
+        if n['k'] == 'Bin' and n['op'] in ('!=', '==') and val(n['l']) == 0:
+            if n['op'] == '==':
+                pol = not pol
+            n = n['r']
+            continue
+        break
+    return n, pol
+
+
+def bool_atoms(n, out=None):
+    """atom keys (normalised show strings) of a condition built from && || ! and comparisons with zero"""
+    out = out if out is not None else []
+    m = strip_all(n)
+    if m['k'] == 'Bin' and m['op'] in ('&&', '||'):
+        bool_atoms(m['l'], out)
+        bool_atoms(m['r'], out)
+        return out
+    a, pol = bool_norm(m)
+    a = strip_all(a)
+    if a['k'] == 'Bin' and a['op'] in ('&&', '||'):
+        return bool_atoms(a, out)
+    k = show(a)
+    if k not in out:
+        out.append(k)
+    return out
+
+
+def bool_eval(n, assign):
+    """truth value of the condition under an assignment {atom key: bool}; None if an atom is missing"""
+    m = strip_all(n)
+    if m['k'] == 'Bin' and m['op'] in ('&&', '||'):
+        a, b = bool_eval(m['l'], assign), bool_eval(m['r'], assign)
+        if m['op'] == '&&':
+            if a is False or b is False:
+                return False
+            return None if a is None or b is None else True
+        if a is True or b is True:
+            return True
+        return None if a is None or b is None else False
+    a, pol = bool_norm(m)
+    a2 = strip_all(a)
+    if a2['k'] == 'Bin' and a2['op'] in ('&&', '||'):
+        v = bool_eval(a2, assign)
+        return None if v is None else (v == pol)
+    k = show(a2)
+    if k not in assign:
+        return None
+    return assign[k] == pol
